@@ -278,7 +278,9 @@ def run_one(chk: C.Check, env: Any, src: str, data: dict[str, Any], stats: dict[
             return
         check_exception(chk, e, where, replay, stats)
 
-    signal.alarm(10)
+    # without resource limits a time-out is not a finding: a short alarm is enough there
+    budget = 10 if cfg[0] else 3
+    signal.alarm(budget)
     try:
         try:
             t = env.from_string(src, **shape_kw)
@@ -300,7 +302,9 @@ def run_one(chk: C.Check, env: Any, src: str, data: dict[str, Any], stats: dict[
             signal.alarm(0)
             sync_e = e
             report(e, "render")
-            signal.alarm(10)
+            if isinstance(e, _Timeout):
+                return          # render_async would only time out again
+            signal.alarm(budget)
         try:
             loop = asyncio.new_event_loop()
             try:
